@@ -150,7 +150,7 @@ package wallet
 //@     (k + 1 < len(x) ==> wtokVal(w, entryPos(p, k)) < wtokVal(w, entryPos(p, k + 1))))
 
 //@ pred addrMapWF(x AddressDecMap) = addrMapNonNil(x) && (forall b BackendID :: has(x, b) ==> has(backend, b) && marshalLen(x[b]) <= 65535)
-//@ pred addrMapEq(y AddressDecMap, x AddressDecMap) = len(y) == len(x) &&
+//@ pred addrMapEq(y AddressDecMap, x AddressDecMap) = y != nil && len(y) == len(x) &&
 //@   (forall b BackendID :: has(y, b) ==> has(x, b) && y[b] != nil && allocated(payload(y[b])) && unmarshalledFrom(y[b]) == marshalOf(x[b]))
 //@ codec AddressDecMap wf addrMapWF eq addrMapEq by verifRoundTripAddressDecMap
 //@ func verifRoundTripAddressDecMap
@@ -177,3 +177,26 @@ package wallet
 //@     invariant forall b BackendID :: has(*a, b) ==> has(x, b) && (*a)[b] != nil && allocated(payload((*a)[b])) && unmarshalledFrom((*a)[b]) == marshalOf(x[b])
 //@     invariant $i > 0 ==> forall b BackendID :: has(*a, b) ==> b <= wtokVal(w0, entryPos(old(wcount(w0)), $i - 1))
 //@     invariant $i == 0 ==> forall b BackendID :: !has(*a, b)
+
+// Arrays of address maps (the participants of a channel): the number of maps, then one summary token per map (lemma
+// verifRoundTripAddressDecMap).
+//@ pred addrArrWF(x AddressMapArray) = forall i int :: 0 <= i && i < len(x.Addr) ==> addrMapWF(x.Addr[i])
+//@ pred addrArrEq(y AddressMapArray, x AddressMapArray) = len(y.Addr) == len(x.Addr) && forall i int :: 0 <= i && i < len(x.Addr) ==> y.Addr[i] != nil && addrMapEq(y.Addr[i], x.Addr[i])
+//@ pred addrArrTokens(w io.Writer, p int, x AddressMapArray, n int) = forall m int :: p + 1 <= m && m < p + 1 + n ==>
+//@   wtokKind(w, m) == tokkind("sum:wallet.AddressDecMap") && wtokVal(w, m) == sumOf(AddressDecMap(x.Addr[m - (p + 1)]))
+//@ codec AddressMapArray wf addrArrWF eq addrArrEq by verifRoundTripAddressMapArray
+//@ func verifRoundTripAddressMapArray
+//@   tokenmodel
+//@   requires w0 != nil && r0 != nil && addrArrWF(x)
+//@   modifies *
+//@   inlines (AddressMapArray).Encode, (*AddressMapArray).Decode
+//@   ensures encErr == nil && !rfail(r0) && !rejected(r0) ==> decErr == nil
+//@   ensures encErr == nil && decErr == nil ==> !desync(r0) && rcount(r0) - old(rcount(r0)) == wcount(w0) - old(wcount(w0))
+//@   ensures encErr == nil && decErr == nil ==> addrArrEq(y, x)
+//@   loop (AddressMapArray).Encode.1
+//@     invariant wcount(w) == old(wcount(w)) + 1 + $i && wtokKind(w, old(wcount(w))) == tokkind("int32") && wtokVal(w, old(wcount(w))) == len(a.Addr)
+//@     invariant addrArrTokens(w, old(wcount(w)), a, $i)
+//@   loop (*AddressMapArray).Decode.1
+//@     modifies fresh, a.Addr, ghost("rcount"), ghost("desync"), ghost("rfail"), ghost("rejected"), ghost("unmarshalledFrom"), ghost("unmarshalled")
+//@     invariant !desync(r) && rcount(r) == old(rcount(r0)) + 1 + $i && mapLen == len(x.Addr) && len(a.Addr) == len(x.Addr)
+//@     invariant forall k int :: 0 <= k && k < $i ==> a.Addr[k] != nil && addrMapEq(a.Addr[k], x.Addr[k])
